@@ -88,6 +88,13 @@ def build_go(name, srcdir, files=None, tag=None):
 def lake_build(targets=("Cog", "drv")):
     with Lock("lake"):
         p = run(["lake", "build", *targets], cwd=LEAN)
+        if p.returncode == 0 and "drv" in targets:
+            # private copy of the freshly linked driver, taken while no other lake build can relink it
+            try:
+                _PRIVATE_DRV.clear()
+                private_drv()
+            except Exception:
+                pass
     return p.returncode == 0, (p.stdout + p.stderr)
 
 
@@ -170,11 +177,39 @@ def audit(theorems, imports):
     return res, text
 
 
+_PRIVATE_DRV = {}
+
+
+def private_drv():
+    """A copy of the driver binary private to this process: another check's `lake build drv`
+    relinks the shared binary (it is briefly absent / busy), which must not disturb a running check.
+    Waits up to two minutes for the shared binary to (re)appear."""
+    src = DRV
+    if _PRIVATE_DRV.get("src") == src and os.path.exists(_PRIVATE_DRV.get("path", "")):
+        return _PRIVATE_DRV["path"]
+    import atexit, shutil
+    os.makedirs(BIN, exist_ok=True)
+    dst = os.path.join(BIN, "drv-p%d" % os.getpid())
+    deadline = time.time() + 120
+    while True:
+        try:
+            shutil.copy2(src, dst + ".tmp")
+            os.replace(dst + ".tmp", dst)
+            break
+        except (FileNotFoundError, OSError):
+            if time.time() > deadline:
+                return src
+            time.sleep(1.0)
+    _PRIVATE_DRV.update(src=src, path=dst)
+    atexit.register(lambda: os.path.exists(dst) and os.remove(dst))
+    return dst
+
+
 def drv(lines, timeout=1800):
     """Feed request lines to the Lean driver, return reply lines."""
     if not lines:
         return []
-    p = subprocess.run([DRV], input="\n".join(lines) + "\n", capture_output=True, text=True, timeout=timeout)
+    p = subprocess.run([private_drv()], input="\n".join(lines) + "\n", capture_output=True, text=True, timeout=timeout)
     out = p.stdout.split("\n")
     if out and out[-1] == "":
         out.pop()
